@@ -457,3 +457,6 @@ func toString(v Value) string {
 	writeValue(&b, v, 0)
 	return b.String()
 }
+
+// ZeroOf returns the zero engine value of type t.
+func ZeroOf(t types.Type) Value { return zero(t) }
